@@ -5,6 +5,10 @@ HERE = os.path.dirname(os.path.dirname(os.path.abspath(__file__)))
 ALL = ["C%02d" % i for i in range(1, 21)]
 # id -> (technique, level text, level note, design ref)
 CHECKS = {
+ "C02": ("bounded-exhaustive enumeration of (target, basis, block layout) triples against the real sender and of (basis, token stream) pairs against the real receiver, judged by an independent codec/denotation (refproto)",
+         "sender: all targets x all bases over a 2-3 letter alphabet (bytes >= 0x80 included) up to length 6/8, block lengths 1..4, strong length 16 and 2, plus forged sum sets whose strong sums agree in only k<16 bytes, plus (thorough) structured layouts B=700..131072 from all edit scripts of depth <=3; receiver: every token stream of <=3/4 tokens over literals and all block references for every basis of length <=4 and B=1..3; every response/file compared with the reference denotation and MD4(seed||target)",
+         "trusts refproto (x/crypto MD4, weak checksum by definition); strong-sum collisions are modelled by forged sums rather than found",
+         "DESIGN.md §5 C02"),
  "C01": ("bounded-exhaustive enumeration of real sessions: file matrix (size x content family x prior-destination variant) x all 512 option subsets x 5 arrangements, plus source-form and long-name parts; every destination file compared with the reference update rule",
          "every option subset of {-l,-p,-t,-g,-o,-D,-c,-I,-a}+-r in every arrangement (daemon pull/push, local, library pull/push) runs a real in-process session over a tree containing the full product of boundary sizes, content families and 20 prior-destination variants; destination bytes are compared per file with the size+mtime / -c / -I rule; source forms (dir, single file, two sources, no -r) and boundary sizes up to 3 MiB (thorough) are separate parts",
          "trusts the tree model (tmpfs lstat/readfile), runs as root, in-memory transport with unbounded buffering (transport behaviour is C18's subject); known findings listed in KNOWN_FINDINGS.txt",
